@@ -44,3 +44,41 @@ def run_pairs_on(exe, pairs, timeout=1800):
     if p.returncode != 0:
         raise RuntimeError(f"runtime worker failed on {exe}: {p.stderr[-800:]}")
     return json.loads(p.stdout)["results"]
+
+
+def pair_observe_on(exe, jobs, timeout=1800):
+    """jobs = [(source, triple or None)]; result per job: [what the script does on that interpreter, what its conversion
+    (made and run on that interpreter) does]; with triple None only the script is run"""
+    env = dict(os.environ, PYTHONPATH="/repo:/verif", PYTHONHASHSEED="0", PYTHONWARNINGS="ignore")
+    p = subprocess.run([exe, "-W", "ignore", "/verif/harness/impl/host_worker.py"],
+                       input=json.dumps({"mode": "pair-observe", "jobs": [[s, None if t is None else list(t)] for s, t in jobs]}),
+                       capture_output=True, text=True, env=env, timeout=timeout)
+    if p.returncode != 0:
+        raise RuntimeError(f"host worker failed on {exe}: {p.stderr[-800:]}")
+    return json.loads(p.stdout)["results"]
+
+
+PRE_709 = "3.11.7"
+
+
+def pep709_source_defect(suspects, host_exe):
+    """suspects = [(source, triple)] whose conversion behaves differently from the script on an interpreter with inlined
+    comprehensions (3.12+, `host_exe`).  A suspect is attributed to that interpreter (CPython's PEP 709 implementation leaks
+    / loses a comprehension variable in the SCRIPT) only if all of this is observed:
+      - on CPython 3.11 the conversion made there behaves exactly like the script there,
+      - the script itself behaves differently on `host_exe` than on 3.11 (it uses nothing version dependent),
+      - the conversion made and run on `host_exe` does exactly what the script does on 3.11.
+    Returns the set of attributed (source, triple)."""
+    exe311 = hosts().get(PRE_709)
+    if not exe311 or not suspects:
+        return set()
+    jobs = [(s, tuple(t)) for s, t in suspects]
+    old = pair_observe_on(exe311, jobs)
+    new = pair_observe_on(host_exe, jobs)
+    out = set()
+    for (s, t), (a311, b311), (a, b) in zip(jobs, old, new):
+        if a311 is None or a is None or not isinstance(b, dict) or not isinstance(b311, dict):
+            continue
+        if a311 == b311 and a != a311 and b == a311:
+            out.add((s, t))
+    return out
